@@ -1590,4 +1590,13 @@ def findLet (name : String) : List Stmt → Option Expr
     | .letS (.bind x) _ (some e) none => if x = name then some e else findLet name rest
     | _ => findLet name rest
 
+/-- condition and body of the first top-level `while` statement of a function body (the loop lemmas of
+    `Proofs/RsLoop.lean` are stated about these, so that a statement does not refer to a position) -/
+def findWhile : List Stmt → Option (Expr × List Stmt)
+  | [] => none
+  | s :: rest =>
+    match s with
+    | .expr (.whileE c b) _ => some (c, b)
+    | _ => findWhile rest
+
 end ClockBound.Rs
